@@ -22,3 +22,23 @@ claim(
     "harness-owned wrapped streams deliver non-empty chunks; stdlib codecs as reference",
     "DESIGN.md 5/C16",
 )
+
+claim(
+    "C09",
+    "runtime monitor on a virtual-time loop: online holder-set/owner monitor + FIFO history oracle + icontract invariants at sync exits + justified-deadlock detection, under swept scope/native cancellations",
+    "Held on every executed schedule: exhaustive sweep of the cancel cycle (0..13) x agent placement x victim x "
+    "scope|native cancel x fast_acquire x {stock, eager} over 3-actor base programs, plus seeded random 2-5 actor "
+    "programs (acquire/nowait/ctx/misuse). Evidence reports how often each critical window (cancel inside acquire, "
+    "cancel after ownership transfer) was actually hit. Schedules not produced are not judged.",
+    "asyncio FIFO ready queue; VLoop (SelectorEventLoop subclass) deadlock detection; native Task.cancel of waiters is supported usage",
+    "DESIGN.md 5/C09",
+)
+claim(
+    "C10",
+    "runtime monitor on a virtual-time loop: permit-conservation monitor vs reported counters at every op boundary, icontract grant invariants at sync exits (incl. total_tokens setter), FIFO obligations, justified-deadlock detection",
+    "Held on every executed history: cancel-cycle sweeps over Semaphore/CapacityLimiter base programs, the "
+    "lower-below-borrowed-then-raise family of total_tokens assignments (where F1 lived), seeded random histories "
+    "with on_behalf_of, extra releases, max_value, misuse, scope and native cancellation on {stock, eager}.",
+    "as C09; concurrent waits on behalf of one borrower object are not generated",
+    "DESIGN.md 5/C10",
+)
